@@ -249,6 +249,7 @@ func childCursor(c *run.Ctx, cfg childCfg) {
 	}
 	found := map[string]*witness{}
 	decided, between, beyond, dupArrays := 0, 0, 0, 0
+	sampled := cfg.Start != 0
 	const batch = 1000
 	for b := cfg.Start; b < cfg.Start+cfg.N; b += batch {
 		c.BeginCase(b, map[string]any{"monitor": "cursor", "batch": b})
@@ -256,7 +257,8 @@ func childCursor(c *run.Ctx, cfg childCfg) {
 			r := c.Rng(fmt.Sprintf("c17/cursor/%d", gi))
 			cs, key := genCursor(r)
 			c.Case(key)
-			if gi < 3 {
+			if !sampled && len(cs.Ts) >= 2 && len(cs.Ts) <= 6 && len(cs.Ops) <= 6 {
+				sampled = true
 				c.Sample(map[string]any{"monitor": "cursor", "case": cs})
 			}
 			for i := 1; i < len(cs.Ts); i++ {
